@@ -546,9 +546,12 @@ func ToOutputScript(address string) ([]byte, error) {
 
 // GetScriptType returns the type of the given script (p2pkh, p2sh, etc.)
 func GetScriptType(script []byte) int {
+	if len(script) == 0 {
+		return P2MultiSigScript
+	}
 	switch script[0] {
 	case txscript.OP_0: // segwit v0
-		if len(script[2:]) == 20 {
+		if len(script) == 22 {
 			return P2WpkhScript
 		}
 		return P2WshScript
